@@ -118,8 +118,8 @@ theorem parseArgs_bridge (a : SAct) :
   simp only [specOfAct, List.map_append, List.filterMap_append, List.filterMap_map]
   have hfm : ∀ (dir : String) (l : List SArg),
       List.filterMap ((fun g => C05.completeArg (g.findtext .service .name) (g.findtext .service .direction)
-        (g.findtext .service .relatedStateVariable)) ∘ x05 ∘ serializeArg dir) l
-      = List.filterMap ((fun g => C05.completeArg g.name g.direction g.related) ∘ specOfArg dir) l := by
+        ((g.findtext .service .relatedStateVariable).map C05.stripWs)) ∘ x05 ∘ serializeArg dir) l
+      = List.filterMap ((fun g => C05.completeArg g.name g.direction (g.related.map C05.stripWs)) ∘ specOfArg dir) l := by
     intro dir l
     congr 1
     funext x
